@@ -159,6 +159,9 @@ func (x *Exec) verifyFunc(key string) (err error) {
 	}
 	// global axioms
 	for _, ax := range x.Lib.Axioms {
+		if fn.Pkg != nil && x.Lib.AxPkg[ax] != shortPkg(fn.Pkg.Pkg.Path()) {
+			continue // axioms are stated per package
+		}
 		env := &Env{x: x, st: st, names: map[string]Val{}, bound: map[string]Val{}, pkg: x.Lib.AxPkg[ax]}
 		t, e := env.evalBool(ax.Expr)
 		if e != nil {
@@ -1235,6 +1238,20 @@ func (x *Exec) makeIface(st *State, v Val, it types.Type) Val {
 	}
 	term := fmt.Sprintf("(mkIface %d %s)", id, payload)
 	r := Val{T: it, Term: term, Taint: v.Taint}
+	// a boxed string mentions the host path iff the string does; boxed numbers and booleans never do
+	switch x.C.sortOf(dt) {
+	case "String":
+		x.declFmt()
+		if strings.HasPrefix(v.Term, "\"") {
+			st.assume(fmt.Sprintf("(not (hostPath %s))", term)) // a string constant of the program
+		} else {
+			st.assume(fmt.Sprintf("(= (hostPath %s) (strHostPath %s))", term, v.Term))
+		}
+	case "Int", "Bool":
+		if _, isBasic := dt.Underlying().(*types.Basic); isBasic {
+			st.assume(fmt.Sprintf("(not (hostPath %s))", term))
+		}
+	}
 	x.errorFacts(st, r, dt, payload)
 	return r
 }
@@ -1256,11 +1273,11 @@ func (x *Exec) errorFacts(st *State, e Val, dyn types.Type, payload string) {
 		ht := named
 		errIdx := fieldIndex(ht, "Err")
 		inner := fmt.Sprintf("(select %s %s)", x.heap(st, x.C.heapFieldName(ht, errIdx), x.C.heapFieldSort(ht, errIdx)), payload)
-		st.assume(fmt.Sprintf("(=> (not (= %s 0)) (and (= (asHTTP %s) %s) (= (asDavErr %s) (asDavErr %s)) (= (asPathErr %s) (asPathErr %s)) (= (isNotExist %s) (isNotExist %s)) (= (isExist %s) (isExist %s)) (= (isPerm %s) (isPerm %s)) (= (isDeadline %s) (isDeadline %s)) (= (hostPath %s) (hostPath %s)) (not (osIsExist %s)) (not (osIsNotExist %s))))",
-			payload, e.Term, payload, e.Term, inner, e.Term, inner, e.Term, inner, e.Term, inner, e.Term, inner, e.Term, inner, e.Term, inner, e.Term, e.Term))
+		st.assume(fmt.Sprintf("(=> (not (= %s 0)) (and (= (asHTTP %s) %s) %s (= (hostPath %s) (hostPath %s)) (not (osIsExist %s)) (not (osIsNotExist %s))))",
+			payload, e.Term, payload, obsForward(e.Term, inner, "asHTTP"), e.Term, inner, e.Term, e.Term))
 	case modPath + "/internal.Error":
-		st.assume(fmt.Sprintf("(=> (not (= %s 0)) (and (= (asHTTP %s) 0) (= (asDavErr %s) %s) (= (asPathErr %s) 0) (not (isNotExist %s)) (not (isExist %s)) (not (isPerm %s)) (not (isDeadline %s)) (not (hostPath %s)) (not (osIsExist %s)) (not (osIsNotExist %s))))",
-			payload, e.Term, e.Term, payload, e.Term, e.Term, e.Term, e.Term, e.Term, e.Term, e.Term, e.Term))
+		st.assume(fmt.Sprintf("(=> (not (= %s 0)) (and (= (asDavErr %s) %s) %s (not (hostPath %s)) (not (osIsExist %s)) (not (osIsNotExist %s))))",
+			payload, e.Term, payload, obsNone(e.Term, "asDavErr"), e.Term, e.Term, e.Term))
 	}
 }
 
